@@ -1,3 +1,66 @@
-(* C02 - placeholder while the invariant is built *)
-From Tramp Require Import Model.Base Model.Sys.
-Theorem C02_placeholder : True. Proof. exact I. Qed.
+(* C02 — incoming HTLCs are never failed back while the outgoing payment can succeed.
+
+   "Once an outgoing payment attempt for a payment hash exists on the node, the plugin fails an incoming HTLC it is
+    holding for that hash only at a moment when no outgoing part for the hash is pending or complete and no pay
+    command for it is running. This holds across restarts: replayed HTLCs of a payment that was in flight stay held
+    until the fate of the interrupted attempt is known, and are settled with its preimage if it completes."
+
+   Histories as in C08 (any start image respecting write-ahead; any interleaving; crashes anywhere; injected faults on
+   every write and on pay). EXCLUDED, and recorded as the known-finding class kf_read_error (KF-A/B/C): an injected
+   error on a READ rpc (listdatastore, listsendpays, waitsendpay) — the code turns wait_payment's error into a failed
+   payment, so a Fail can go out while a part is pending; [hist_wf] forbids exactly those events and nothing else. *)
+From Tramp Require Import Model.Base Model.Fee Model.Classify Model.Node Model.Provider Model.ProviderSys Model.Sys.
+From Tramp Require Import Proofs.SysBasics Proofs.SysShape Proofs.SysTheorems Proofs.SysReach Proofs.SysCalls Proofs.SysNode Proofs.SysSafety.
+
+(* every Fail response to a held HTLC is given at a moment when every outgoing part has failed (none pending, none
+   complete) and no pay command runs — stronger than the statement: it does not even need an attempt to exist *)
+Theorem C02_fail_only_when_nothing_live : forall c n t0 h0 a0 evs ev h m,
+  node_ok n -> hist_wf c (sys_start n t0 h0 a0) evs ->
+  let s := after c n t0 h0 a0 evs in
+  In (OResp h (Fail m)) (snd (step c s ev)) ->
+  all_failed (parts (nd s)) /\ payrun (nd s) = 0.
+Proof.
+  intros c n t0 h0 a0 evs ev h m Hn Hwf s Hin.
+  exact (fail_only_when_quiet c s ev h m (after_wreach c n t0 h0 a0 evs Hn Hwf) Hin).
+Qed.
+
+(* while a part is pending — before or after any number of restarts — no held HTLC is failed *)
+Theorem C02_held_while_pending : forall c n t0 h0 a0 evs ev h m pid,
+  node_ok n -> hist_wf c (sys_start n t0 h0 a0) evs ->
+  let s := after c n t0 h0 a0 evs in
+  nth_error (parts (nd s)) pid = Some PPend -> ~ In (OResp h (Fail m)) (snd (step c s ev)).
+Proof.
+  intros c n t0 h0 a0 evs ev h m pid Hn Hwf s Hp Hin.
+  destruct (fail_only_when_quiet c s ev h m (after_wreach c n t0 h0 a0 evs Hn Hwf) Hin) as (Haf & _).
+  specialize (Haf pid _ Hp). discriminate.
+Qed.
+
+(* once a part has completed, no HTLC of the hash is ever failed again, whatever happens later (restarts included):
+   every answer from then on is a settle — with a key of this hash, by C01 *)
+Theorem C02_never_failed_after_completion : forall c n t0 h0 a0 evs evs' ev p h m,
+  node_ok n -> hist_wf c (sys_start n t0 h0 a0) (evs ++ evs') ->
+  has_done p (parts (nd (after c n t0 h0 a0 evs))) ->
+  ~ In (OResp h (Fail m)) (snd (step c (after c n t0 h0 a0 (evs ++ evs')) ev)).
+Proof.
+  intros c n t0 h0 a0 evs evs' ev p h m Hn Hwf Hd Hin.
+  destruct (fail_only_when_quiet c _ ev h m (after_wreach c n t0 h0 a0 (evs ++ evs') Hn Hwf) Hin) as (Haf & _).
+  apply (has_done_not_all_failed p _) in Haf; [exact Haf|].
+  unfold after in *.
+  assert (R : forall l1 l2 s0, fst (run c s0 (l1 ++ l2)) = fst (run c (fst (run c s0 l1)) l2)).
+  { induction l1 as [|e r IH]; intros l2 s0; cbn [app run]; [reflexivity|].
+    destruct (step c s0 e) as [s1 o]. specialize (IH l2 s1). destruct (run c s1 (r ++ l2)) as [sa oa]. destruct (run c s1 r) as [sb ob]. cbn [fst] in *. exact IH. }
+  rewrite R. apply has_done_run. exact Hd.
+Qed.
+
+(* the restart path: replayed HTLCs of a Pending record are settled with the interrupted attempt's preimage when it
+   completes (here: found complete), and failed only after every part of it is known to have failed *)
+Example C02_restart_settles_or_waits :
+  let c := {| mpp_ms := 60000; pol := {| fee_base := 0; fee_ppm := 0; pol_delta := 40 |}; cltv_delta := 6; retry_for := 60 |} in
+  let h := {| hid := 7; blob := [1]; deliver := 10; inv_amount := Some 10; amt := 10; total := 10; expiry := 1000; rel := 100%Z |} in
+  let n1 := {| ds := Some (DPending 0 0, 0); atts := []; parts := [PPend]; payrun := 0 |} in
+  let wait := [EvHtlc h; EvProcess 0 NoFault; EvDeliver 0 true; EvProcess 1 NoFault; EvDeliver 1 true; EvProcess 2 NoFault; EvDeliver 2 true; EvProcess 3 NoFault] in
+  (* the part is still pending: nothing is answered, the lifecycle waits on waitsendpay *)
+  snd (run c (sys_start n1 0 0 0) wait) = [[OCall 0 QListState]; []; [OCall 1 QListPend]; []; [OCall 2 QListDone]; []; [OCall 3 (QWaitPart 0)]; []] /\
+  (* it completes: settled with its preimage *)
+  resps (snd (step c (after c n1 0 0 0 (wait ++ [EvPart 0 (PDone [9]); EvProcess 3 NoFault])) (EvDeliver 3 true))) = [OResp 7 (Resolve [9])].
+Proof. vm_compute. split; reflexivity. Qed.
